@@ -250,3 +250,4 @@ BOUNDS = dict(
     "symbolic rotation declared Unitary; CG / GMRES lazy inverses for n in {2,3}; the 10^6 switch on a 1002 x 1002 operator",
     observations="inv(A) @ b, inv(A) @ B, solve, b @ inv(A), inv(A).T @ b, inv(A).to_dense(); default / Auto / LU / Cholesky / CG / GMRES", values="all payloads "
     "and right-hand sides symbolic")
+BOUNDS["added"] = 'symbolic arrays report the array-API device of NumPy >= 2 and an exception of the float run inside a guarded call counts although the symbolic run completed (this is how inv(c * A) was found)'
